@@ -341,14 +341,19 @@ class H(Harness):
         def snap(t):
             dist = dyn.eventRateDistribution(t)
             mine = []
+            reg = {}       # which component registered an entry (an event may sit on a sibling's locus)
             for l in leaves:
                 p = objs[l['id']]
                 if hasattr(p, '_perElementEvents'):
-                    mine += [('E', lkey(x[0]), x[1], fkey(x[2]), x[3]) for x in p.perElementEventRateDistribution(t)]
+                    for x in p.perElementEventRateDistribution(t):
+                        mine.append(('E', lkey(x[0]), x[1], fkey(x[2]), x[3]))
+                        reg[(lkey(x[0]), fkey(x[2]), x[3])] = l['id']
             for l in leaves:
                 p = objs[l['id']]
                 if hasattr(p, '_perLocusEvents'):
-                    mine += [('F', lkey(x[0]), x[1], fkey(x[2]), x[3]) for x in p.fixedRateEventDistribution(t)]
+                    for x in p.fixedRateEventDistribution(t):
+                        mine.append(('F', lkey(x[0]), x[1], fkey(x[2]), x[3]))
+                        reg[(lkey(x[0]), fkey(x[2]), x[3])] = l['id']
             npe = len(dyn.perElementEventRateDistribution(t))
             theirs = [('E' if i < npe else 'F', lkey(x[0]), x[1], fkey(x[2]), x[3]) for i, x in enumerate(dist)]
             attrs_now = state()[0]
@@ -363,7 +368,7 @@ class H(Harness):
                     vi[l['id']] = {'expected': sorted(x[1] for x in extra[l['id']] if x[1] is not None), 'missing': sum(1 for x in extra[l['id']] if x[1] is None),
                                    'used': sorted(x[1] for x in p.perElementEventDistribution(t) if x[3] == ep.SIR.INFECTED)}
             obs['snaps'].append({'t': t, 'sizes': [len(l) for l in dyn.loci().values()], 'extra': extra, 'vi': vi,
-                                 'dist': [[lid.get(id(x[0].process()), -1), x[3], x[1]] for x in dist],
+                                 'dist': [[reg.get((lkey(x[0]), fkey(x[2]), x[3]), lid.get(id(x[0].process()), -1)), x[3], x[1]] for x in dist],
                                  'union_ok': sorted(mine, key=repr) == sorted(theirs, key=repr), 'same_order': mine == theirs})
 
         def started(params_):
@@ -422,6 +427,11 @@ class H(Harness):
             posted = sorted((new[3][k][2], new[3][k][0], new[3][k][1]) for k in new[3] if k not in old[3])
             evrec = {'t': t, 'leaf': i, 'name': name, 'fn': fn, 'attrs': ch, 'loci': chl, 'topo_same': old[2] == new[2],
                      'e': e, 'posted': posted}
+            if fn == 'infect' and i in obs['statevars'] and isinstance(e, tuple):
+                # the instance's OWN occupied flag on the edge it has just transmitted over
+                cvar0, ovar0 = obs['statevars'][i][0], obs['statevars'][i][1]
+                evrec['moved'] = old[0].get(('n', e[0], cvar0)) != new[0].get(('n', e[0], cvar0))
+                evrec['own_occupied'] = new[0].get(('e', tuple(sorted(e)), ovar0))
             if i in entry and fn == 'infect':
                 n0 = entry.pop(i)
                 node = e[0]
@@ -595,6 +605,12 @@ class H(Harness):
             badl = [n for n in ev['loci'] if n not in own.get(i, set())]
             if bad or badl or not ev['topo_same']:
                 v.append({'signature': 'event-changed-foreign-state', 'detail': {'event': ev, 'attributes': bad, 'loci': badl}})
+                break
+        # an instance that transmits over an edge marks it occupied under ITS OWN state variable, whatever other instances
+        # did to that edge before (its contact tree must not depend on its siblings)
+        for ev in obs['events']:
+            if ev.get('moved') and ev.get('own_occupied') is not True:
+                v.append({'signature': 'own-occupied-flag-not-set-by-infection', 'detail': {'event': ev}})
                 break
         # the values an instance USES at run time are the ones the three-level rule selects
         import epydemic as ep
